@@ -25,7 +25,7 @@ def laststep(steps, rotations):
     return int(math.ceil(float(steps) * float(f32(rotations))))
 
 
-def gen_config(rng, quick=True, nbmax=3, allow_renorm=True):
+def gen_config(rng, quick=True, nbmax=3, allow_renorm=True, allow_rfmod=False):
     n = rng.choice([16, 24, 32] if quick else [16, 24, 32, 48])
     N = rng.choice([16, 20, 32, 40])
     T = rng.choice([0.25, 0.5, 0.75, 1.0]) if quick else rng.choice([0.25, 0.5, 1.0, 1.5])
@@ -43,6 +43,9 @@ def gen_config(rng, quick=True, nbmax=3, allow_renorm=True):
     shy = rng.choice([0, 0, rng.choice([-2, -1, 1, 3])])
     cfg = dict(n=n, N=N, T=T, outstep=outstep, h5save=h5save, cur=cur, imp=imp, renorm=renorm, shx=shx, shy=shy,
                pad=rng.choice([2, 4]), it=rng.choice([2, 3, 4]), dt=rng.choice([3, 4]))
+    if allow_rfmod and rng.random() < 0.5:
+        # deterministic RF phase modulation (no noise): the dynamic RF map with its per-step queue is in the loop
+        cfg["rfmod"] = [rng.choice([0.2, 0.5, 2.0]), rng.choice([8000.0, 45000.0]), rng.choice([0, 1])]
     return cfg
 
 
@@ -60,6 +63,9 @@ def args_of(cfg, out="a.h5", extra=()):
         a += ["-G", "-1"]
     elif cfg["imp"] == "wall":
         a += ["-G", "0.03", "--UseCSR", "0", "--WallConductivity", "3.5e7"]
+    if cfg.get("rfmod"):
+        a += ["--RFPhaseModAmplitude", repr(cfg["rfmod"][0]), "--RFPhaseModFrequency", repr(cfg["rfmod"][1]),
+              "--LinearRF", str(cfg["rfmod"][2])]
     if out:
         a += ["-o", out]
     return a + list(extra)
